@@ -20,8 +20,9 @@ def everything_is_wrapped_by_one_bucket(ctx):
              and any(t.name == '__init__' for t in r.targets) and not isinstance(c.func, ast.Attribute)]
     ctx.ob('<package>', 'LeakyBucket constructed at exactly one site', len(sites) == 1, f'{len(sites)} construction sites: transfers would not share one limit')
     for f, c in sites:
-        ok = f.qualname == 'manager.TransferManager.__init__' and q.guards_imply(q.guards(c), 'self._config.max_bandwidth is not None') \
-            and c.args and norm(c.args[0]) == 'self._config.max_bandwidth' and q.in_loop(c) is None
+        gs_ = [(ast.parse(q.self_alias_text(f, e), mode='eval').body if isinstance(e, ast.AST) else e, pol) for e, pol in q.guards(c)]
+        ok = f.qualname == 'manager.TransferManager.__init__' and q.guards_imply(gs_, 'self._config.max_bandwidth is not None') \
+            and c.args and q.self_alias_text(f, c.args[0]) == 'self._config.max_bandwidth' and q.in_loop(c) is None
         ctx.ob(f, c, ok, 'the bucket must be created once per manager with the configured max_bandwidth')
     mi = ctx.func('manager.TransferManager.__init__')
     lims = []
@@ -50,11 +51,37 @@ def everything_is_wrapped_by_one_bucket(ctx):
     # upload side
     w = ctx.func('upload.UploadInputManager._wrap_fileobj')
     cs = [c for c in own_calls(w.node) if (dotted(c.func) or '').endswith('get_bandwith_limited_stream')]
-    ok = len(cs) == 1 and q.guards_imply(q.guards(cs[0]), 'self._bandwidth_limiter') and len(q.guards(cs[0])) == 1
-    rets = [n for n in own_nodes(w.node) if isinstance(n, ast.Return)]
-    var = cs[0]._parent.targets[0].id if ok and isinstance(cs[0]._parent, ast.Assign) else None
-    ctx.ob(w, '_wrap_fileobj applies the limiter when present and returns the wrapped object', ok and var is not None and all(norm(r.value) == var for r in rets)
-           and isinstance(cs[0].args[0], ast.Name) and cs[0].args[0].id == var, 'upload bodies would bypass the limiter')
+    # path rule: on every path to a return, the value returned is the limited stream (of the wrapped object) when a limiter is
+    # configured, and the limiter is by-passed only when there is none
+    gw = ctx.cfg(w)
+    rets = [n for n in own_nodes(w.node) if isinstance(n, ast.Return) and n.value is not None]
+    okp = len(cs) == 1 and bool(rets)
+    seen_lim = False
+    for r in rets:
+        res = gw.path_conditions([gw.entry], gw.nodes_of(r), labels=gw.NORMAL, with_nodes=True)
+        if not res:
+            okp = False
+            continue
+        for conds, nodes in res:
+            via = set()      # locals that hold the limited stream on this path
+            for n in nodes[:-1]:
+                st = n.ast if n.kind == 'stmt' else None
+                if isinstance(st, ast.Assign) and len(st.targets) == 1 and isinstance(st.targets[0], ast.Name):
+                    if any(x is cs[0] for x in ast.walk(st.value)) if cs else False:
+                        via.add(st.targets[0].id)
+                    elif not (isinstance(st.value, ast.Name) and st.value.id in via):
+                        via.discard(st.targets[0].id)
+                    else:
+                        via.add(st.targets[0].id)
+            limited = (isinstance(r.value, ast.Name) and r.value.id in via) or (bool(cs) and any(x is cs[0] for x in ast.walk(r.value)))
+            has_limiter = q.guards_imply(conds, 'self._bandwidth_limiter')
+            no_limiter = q.guards_imply(conds, 'not self._bandwidth_limiter')
+            if limited:
+                seen_lim = True
+                okp = okp and has_limiter
+            else:
+                okp = okp and no_limiter
+    ctx.ob(w, '_wrap_fileobj applies the limiter when present and returns the wrapped object', okp and seen_lim, 'upload bodies would bypass the limiter')
     ir = [c for c in own_calls(w.node) if norm(c.func) == 'InterruptReader']
     ctx.ob(w, '_wrap_fileobj wraps with InterruptReader (C03.f/C07.f)', len(ir) == 1 and not q.guards(ir[0]), 'uploads of a failed transfer would keep reading')
     base = ctx.cls('upload.UploadInputManager')
